@@ -38,6 +38,80 @@ class AArr:
         return f"AArr{self.shape}"
 
 
+class AScal:
+    """An unknown numeric scalar (a value, not a shape quantity)."""
+    def __repr__(self):
+        return "AScal"
+
+
+def elementwise(*args):
+    """Shape of an elementwise ufunc / operator result."""
+    shp = ()
+    any_arr = False
+    for a in args:
+        if isinstance(a, AArr):
+            shp = bshape(shp, a.shape) if any_arr else a.shape
+            any_arr = True
+        elif isinstance(a, (int, float, complex, AScal)) or a is None:
+            continue
+        else:
+            raise Unsupported(f"elementwise operand {a!r}")
+    return AArr(shp) if any_arr else AScal()
+
+
+def index_array(a, idx):
+    """NumPy basic indexing on a shape: ints, slices, Ellipsis, None."""
+    if not isinstance(idx, tuple):
+        idx = (idx,)
+    n_real = sum(1 for i in idx if i is not None and i is not Ellipsis)
+    if n_real > len(a.shape):
+        raise ShapeError("too many indices")
+    if Ellipsis in idx:
+        k = idx.index(Ellipsis)
+        fill = (slice(None),) * (len(a.shape) - n_real)
+        idx = idx[:k] + fill + idx[k + 1:]
+    else:
+        idx = idx + (slice(None),) * (len(a.shape) - n_real)
+    out = []
+    pos = 0
+    for i in idx:
+        if i is None:
+            out.append(1)
+            continue
+        d = a.shape[pos]
+        pos += 1
+        if isinstance(i, int):
+            continue
+        if isinstance(i, slice):
+            if i.start is None and i.stop is None and i.step is None:
+                out.append(d)
+            elif isinstance(d, int) and i.step is None:
+                out.append(len(range(d)[i]))
+            elif i.step is None and all(
+                    x is None or isinstance(x, int) for x in (i.start, i.stop)):
+                # length of a slice of a symbolic axis: (a*d + b) form
+                def lin(x, default):
+                    if x is None:
+                        return default
+                    return (1, x) if x < 0 else (0, x)
+                a_s, b_s = lin(i.start, (0, 0))
+                a_e, b_e = lin(i.stop, (1, 0))
+                coef, const = a_e - a_s, b_e - b_s
+                if coef == 1:
+                    out.append(d if const == 0 else f"{d}{const:+d}")
+                elif coef == 0:
+                    out.append(max(const, 0))
+                else:
+                    out.append(f"{d}[{i.start}:{i.stop}]")
+            else:
+                out.append(f"{d}[{i.start}:{i.stop}]")
+            continue
+        if isinstance(i, AArr):
+            raise Unsupported("advanced indexing")
+        raise Unsupported(f"index {i!r}")
+    return AArr(tuple(out))
+
+
 class AVec:
     __slots__ = ("items",)
 
@@ -57,6 +131,12 @@ def bdim(a, b):
     if b == 1:
         return a
     raise ShapeError(f"axes of size {a} and {b} do not broadcast")
+
+
+def bshape_exact(s1, s2):
+    if tuple(s1) != tuple(s2):
+        raise ShapeError(f"np.stack of different shapes {s1} and {s2}")
+    return tuple(s1)
 
 
 def bshape(s1, s2):
@@ -138,19 +218,86 @@ def np_tile(a, reps):
     return AArr(tuple(mul_dim(d, r) for d, r in zip(sh, rp)))
 
 
+GLOBALS = {"SAGE_AVAILABLE": False, "None": None, "True": True,
+           "False": False}
+
+UFUNCS = {"np.sqrt", "np.abs", "np.cos", "np.sin", "np.arctan2", "np.exp",
+          "np.arccosh", "np.arccos", "np.sign", "np.conjugate", "np.real",
+          "np.imag", "np.maximum", "np.minimum", "np.square", "np.tan",
+          "np.arctan", "np.sinh", "np.cosh", "np.tanh", "np.arcsinh",
+          "np.absolute", "np.log", "np.isnan"}
+
+
 class Interp:
-    def __init__(self, module_tree, trace=None):
-        self.funcs = {n.name: n for n in module_tree.body
-                      if isinstance(n, ast.FunctionDef)}
+    """module_tree: the module bare names resolve in first; extra_trees: a
+    tuple of (prefix, tree) pairs, e.g. ("utils", core_tree), reachable as
+    `utils.<name>` (and as bare names from inside themselves)."""
+
+    def __init__(self, module_tree, trace=None, extra_trees=()):
+        self.mods = {}
+        self.owner = {}
+        trees = [("", module_tree)]
+        for x in extra_trees:
+            trees.append(x if isinstance(x, tuple) else ("utils", x))
+        for prefix, t in trees:
+            d = {}
+            for n in t.body:
+                if isinstance(n, ast.FunctionDef):
+                    d[n.name] = n
+                    self.owner[id(n)] = prefix
+                elif isinstance(n, ast.ClassDef):
+                    for m in n.body:
+                        if isinstance(m, ast.FunctionDef):
+                            self.owner[id(m)] = prefix
+            self.mods[prefix] = d
+        self.funcs = dict(self.mods[""])
+        for prefix, d in self.mods.items():
+            for k, v in d.items():
+                self.funcs.setdefault(k, v)
+        self.stack = [""]
         self.depth = 0
         self.calls = 0
+        # factory helpers of utils/core.py are modelled, not interpreted
+        self.factory = {}
+        for prefix, t in trees:
+            names = {n.name for n in t.body if isinstance(n, ast.FunctionDef)}
+            if {"check_type", "matrix_product", "zeros"} <= names:
+                for n in t.body:
+                    if isinstance(n, ast.FunctionDef) and n.name in (
+                            "zeros", "ones", "identity", "number", "pi",
+                            "array_like", "guess_literal_ring", "unit_imag"):
+                        self.factory[id(n)] = n.name
+
+    def lookup(self, name):
+        """Resolve a called name in the current module context."""
+        if "." in name:
+            prefix, _, base = name.rpartition(".")
+            d = self.mods.get(prefix)
+            if d is not None and base in d:
+                return d[base]
+            return None
+        cur = self.stack[-1]
+        d = self.mods.get(cur, {})
+        if name in d:
+            return d[name]
+        return None
 
     # ------------------------------------------------------------------
     def call(self, fname, args, kwargs=None):
         if fname not in self.funcs:
             raise Unsupported(f"kernel function {fname} not found")
-        fn = self.funcs[fname]
+        return self.call_node(self.funcs[fname], args, kwargs)
+
+    def call_node(self, fn, args, kwargs=None):
+        fname = fn.name
         kwargs = dict(kwargs or {})
+        self.stack.append(self.owner.get(id(fn), self.stack[-1]))
+        try:
+            return self._call_node(fn, fname, args, kwargs)
+        finally:
+            self.stack.pop()
+
+    def _call_node(self, fn, fname, args, kwargs):
         env = {}
         a = fn.args
         params = [p.arg for p in a.args]
@@ -165,8 +312,10 @@ class Interp:
                 env[p] = self.expr(defaults[p], {})
             else:
                 raise Unsupported(f"missing argument {p} for {fname}")
-        if kwargs:
+        if kwargs and a.kwarg is None:
             raise Unsupported(f"unexpected keywords {sorted(kwargs)}")
+        if a.kwarg is not None:
+            env[a.kwarg.arg] = kwargs
         self.depth += 1
         self.calls += 1
         if self.depth > 20:
@@ -201,10 +350,20 @@ class Interp:
                 self.assign(t, v, env)
             return None
         if isinstance(st, ast.AugAssign):
+            if isinstance(st.target, ast.Subscript):
+                self.assign(st.target, self.expr(st.value, env), env)
+                return None
             if not isinstance(st.target, ast.Name):
                 raise Unsupported("augmented assignment to non-name")
             cur = env[st.target.id]
             v = self.expr(st.value, env)
+            if isinstance(cur, AArr):
+                res = elementwise(cur, v)
+                if res.shape != cur.shape:
+                    raise ShapeError(
+                        f"in-place update of an array of shape {cur.shape} "
+                        f"with a value broadcasting to {res.shape}")
+                return None
             env[st.target.id] = self.binop(st.op, cur, v)
             return None
         if isinstance(st, ast.If):
@@ -212,10 +371,33 @@ class Interp:
             return self.block(st.body if t else st.orelse, env)
         if isinstance(st, ast.Pass):
             return None
+        if isinstance(st, ast.For):
+            it = self.expr(st.iter, env)
+            if not isinstance(it, (tuple, list)):
+                raise Unsupported("loop over a non-concrete iterable")
+            for x in it:
+                self.assign(st.target, x, env)
+                r = self.block(st.body, env)
+                if r is not None:
+                    return r
+            return None
+        if isinstance(st, ast.With):
+            return self.block(st.body, env)
         raise Unsupported(f"statement {type(st).__name__} at line "
                           f"{st.lineno}")
 
     def assign(self, t, v, env):
+        if isinstance(t, ast.Subscript):
+            base = self.expr(t.value, env)
+            if not isinstance(base, AArr):
+                raise Unsupported("subscript store into non-array")
+            region = index_array(base, self.index(t.slice, env))
+            if isinstance(v, AArr):
+                if bshape(region.shape, v.shape) != region.shape:
+                    raise ShapeError(
+                        f"value of shape {v.shape} stored into region of "
+                        f"shape {region.shape}")
+            return
         if isinstance(t, ast.Name):
             env[t.id] = v
         elif isinstance(t, (ast.Tuple, ast.List)):
@@ -240,6 +422,13 @@ class Interp:
     def binop(self, op, a, b):
         if isinstance(op, ast.MatMult):
             return matmul(a, b)
+        if isinstance(a, AArr) or isinstance(b, AArr):
+            if isinstance(op, (ast.Add, ast.Sub, ast.Mult, ast.Div, ast.Pow,
+                               ast.FloorDiv, ast.Mod)):
+                return elementwise(a, b)
+            raise Unsupported("operator on arrays")
+        if isinstance(a, AScal) or isinstance(b, AScal):
+            return AScal()
         if isinstance(op, ast.Add):
             if isinstance(a, tuple) and isinstance(b, tuple):
                 return a + b
@@ -271,15 +460,21 @@ class Interp:
         if isinstance(e, ast.Name):
             if e.id in env:
                 return env[e.id]
+            if e.id in GLOBALS:
+                return GLOBALS[e.id]
             raise Unsupported(f"name {e.id}")
         if isinstance(e, ast.Tuple):
             return tuple(self.expr(x, env) for x in e.elts)
+        if isinstance(e, ast.List):
+            return [self.expr(x, env) for x in e.elts]
         if isinstance(e, ast.UnaryOp):
             v = self.expr(e.operand, env)
             if isinstance(e.op, ast.USub) and isinstance(v, int):
                 return -v
             if isinstance(e.op, ast.Not):
                 return not self.truth(v)
+            if isinstance(v, (AArr, AScal)) or isinstance(v, float):
+                return v
             raise Unsupported("unary op")
         if isinstance(e, ast.BinOp):
             return self.binop(e.op, self.expr(e.left, env),
@@ -309,6 +504,10 @@ class Interp:
                 left = right
             return res
         if isinstance(e, ast.Attribute):
+            if ast.unparse(e) == "np.pi":
+                return AScal()
+            if ast.unparse(e) == "np.newaxis":
+                return None
             v = self.expr(e.value, env)
             if isinstance(v, AArr):
                 if e.attr == "T":
@@ -317,6 +516,8 @@ class Interp:
                     return len(v.shape)
                 if e.attr == "shape":
                     return v.shape
+            if ast.unparse(e) in ("np.pi", "np.newaxis"):
+                return AScal() if e.attr == "pi" else None
             raise Unsupported(f"attribute .{e.attr} of {v!r}")
         if isinstance(e, ast.Subscript):
             v = self.expr(e.value, env)
@@ -333,12 +534,55 @@ class Interp:
                 i = self.expr(e.slice, env)
                 if isinstance(i, int):
                     return v[i]
+            if isinstance(v, AArr):
+                return index_array(v, self.index(e.slice, env))
             raise Unsupported(f"subscript of {v!r}")
         if isinstance(e, ast.Call):
             return self.callexpr(e, env)
         raise Unsupported(f"expression {type(e).__name__}")
 
+    def index(self, sl, env):
+        if isinstance(sl, ast.Tuple):
+            return tuple(self.index(x, env) for x in sl.elts)
+        if isinstance(sl, ast.Slice):
+            lo = self.expr(sl.lower, env) if sl.lower else None
+            hi = self.expr(sl.upper, env) if sl.upper else None
+            st = self.expr(sl.step, env) if sl.step else None
+            return slice(lo, hi, st)
+        if isinstance(sl, ast.Constant) and sl.value is Ellipsis:
+            return Ellipsis
+        if isinstance(sl, ast.Attribute) and ast.unparse(sl) == "np.newaxis":
+            return None
+        return self.expr(sl, env)
+
+    def method(self, a, name, args, kw):
+        if name == "squeeze":
+            axis = kw.get("axis", args[0] if args else None)
+            return np_squeeze(a, axis)
+        if name in ("astype", "copy", "conjugate"):
+            return a
+        if name == "swapaxes":
+            ax = _norm_axes(tuple(args[:2]), len(a.shape))
+            sh = list(a.shape)
+            sh[ax[0]], sh[ax[1]] = sh[ax[1]], sh[ax[0]]
+            return AArr(tuple(sh))
+        if name == "sum":
+            axis = kw.get("axis", args[0] if args else None)
+            if axis is None:
+                return AScal()
+            ax = _norm_axes(axis, len(a.shape))
+            return AArr(tuple(d for i, d in enumerate(a.shape)
+                              if i not in ax))
+        raise Unsupported(f"array method .{name}")
+
     def compare(self, op, a, b):
+        if isinstance(op, (ast.Is, ast.IsNot)):
+            same = (a is None and b is None)
+            if a is None or b is None:
+                return same if isinstance(op, ast.Is) else not same
+            raise Unsupported("identity comparison of non-None values")
+        if isinstance(a, AArr) or isinstance(b, AArr):
+            return elementwise(a, b)
         if isinstance(a, AVec) and isinstance(b, int):
             if isinstance(op, ast.Eq) and b == 1:
                 out = []
@@ -363,10 +607,100 @@ class Interp:
 
     def callexpr(self, e, env):
         name = ast.unparse(e.func)
+        # methods on abstract arrays
+        if isinstance(e.func, ast.Attribute) and not name.startswith(
+                ("np.", "utils.")):
+            recv = self.expr(e.func.value, env)
+            if isinstance(recv, AArr):
+                margs = [self.expr(a, env) for a in e.args]
+                mkw = {k.arg: self.expr(k.value, env) for k in e.keywords}
+                return self.method(recv, e.func.attr, margs, mkw)
         args = [self.expr(a, env) for a in e.args]
         kw = {k.arg: self.expr(k.value, env) for k in e.keywords}
-        if name in self.funcs:
-            return self.call(name, args, kw)
+        if name in ("np.identity", "utils.identity"):
+            return AArr((args[0], args[0]))
+        if name in ("np.zeros", "np.ones", "utils.zeros", "utils.ones"):
+            shp = args[0]
+            return AArr(tuple(shp) if isinstance(shp, tuple) else (shp,))
+        if name in ("utils.guess_literal_ring",):
+            return None
+        if name in ("utils.number", "utils.pi", "number", "pi") \
+                and self.stack[-1] == "utils" or name in ("utils.number",
+                                                           "utils.pi"):
+            return AScal()
+        fn = self.lookup(name)
+        if fn is not None and id(fn) in self.factory:
+            kind = self.factory[id(fn)]
+            if kind == "identity":
+                return AArr((args[0], args[0]))
+            if kind in ("zeros", "ones"):
+                shp = args[0]
+                return AArr(tuple(shp) if isinstance(shp, tuple) else (shp,))
+            if kind == "array_like":
+                if isinstance(args[0], AArr):
+                    return args[0]
+                raise Unsupported("array_like of a non-array")
+            if kind == "guess_literal_ring":
+                return None
+            return AScal()
+        if fn is not None:
+            return self.call_node(fn, args, kw)
+        if name in UFUNCS:
+            return elementwise(*args)
+        if name == "np.divide":
+            res = elementwise(*args[:2])
+            out = kw.get("out")
+            if isinstance(out, AArr):
+                if isinstance(res, AArr) and bshape(out.shape, res.shape) \
+                        != out.shape:
+                    raise ShapeError(f"np.divide result {res.shape} does not "
+                                     f"fit out= of shape {out.shape}")
+                return out
+            return res
+        if name == "np.atleast_1d":
+            a = args[0]
+            if isinstance(a, AArr):
+                return a if a.shape else AArr((1,))
+            return AArr((1,))
+        if name == "np.errstate":
+            return None
+        if name in ("np.zeros_like", "np.ones_like", "np.copy", "np.array",
+                    "np.asarray") and args and isinstance(args[0], AArr):
+            return args[0]
+        if name == "np.stack":
+            items = args[0]
+            axis = kw.get("axis", args[1] if len(args) > 1 else 0)
+            shp = None
+            for x in items:
+                if not isinstance(x, AArr):
+                    raise Unsupported("np.stack of non-arrays")
+                shp = x.shape if shp is None else bshape_exact(shp, x.shape)
+            nd = len(shp) + 1
+            ax = _norm_axes(axis, nd)[0]
+            return AArr(shp[:ax] + (len(items),) + shp[ax:])
+        if name == "np.concatenate":
+            items = args[0]
+            axis = kw.get("axis", args[1] if len(args) > 1 else 0)
+            ax = _norm_axes(axis, len(items[0].shape))[0]
+            tot = 0
+            sym = []
+            for x in items:
+                for i, (p, q) in enumerate(zip(items[0].shape, x.shape)):
+                    if i != ax and p != q:
+                        raise ShapeError(
+                            f"np.concatenate: shapes {items[0].shape} and "
+                            f"{x.shape} differ off axis {ax}")
+                d = x.shape[ax]
+                if isinstance(d, int):
+                    tot += d
+                else:
+                    sym.append(str(d))
+            dim = tot if not sym else "+".join(sym + ([str(tot)] if tot else []))
+            sh = list(items[0].shape)
+            sh[ax] = dim
+            return AArr(tuple(sh))
+        if name == "np.roll":
+            return args[0]
         if name == "np.expand_dims":
             axis = kw.get("axis", args[1] if len(args) > 1 else None)
             return np_expand_dims(args[0], axis)
